@@ -5,6 +5,7 @@ import Driver.SchedDrv
 import Driver.RwDrv
 import Driver.SndDrv
 import Driver.SharedDrv
+import Driver.AffDrv
 /-! `driver <model>`: reads harness output (cases) on stdin, prints one verdict line per case. -/
 open Driver
 
@@ -16,6 +17,7 @@ def dispatch (model : String) (c : Case) : String :=
   | "rw" => RwDrv.runCase c
   | "snd" => SndDrv.runCase c
   | "shared" => SharedDrv.runCase c
+  | "aff" => AffDrv.runCase c
   | _ => s!"case {c.id} reject 0 unknown-model-{model}"
 
 def main (args : List String) : IO UInt32 := do
